@@ -37,6 +37,8 @@ EXCEPTIONS = {
 def run(ctx, R):
     F = ctx.facts()
     list_walkers(F, R)
+    from . import c10
+    c10.blind_structure_reads(F, R, "C20")   # a Str cell is a list cell only if its functor is '.'/2
     R.rule("RF10/RF1: every tag dispatch that names Lis names PStrLoc (and conversely) or is a listed exception")
     n_both = 0
     n_one = 0
